@@ -71,6 +71,9 @@ def make_scratch(mutant):
         if p.returncode:
             shutil.rmtree(d, ignore_errors=True)
             raise RuntimeError(f'patch failed: {p.stdout}{p.stderr}')
+        import re
+        for cf in set(re.findall(r'^\+\+\+ b/(regions/_geometry/\w+\.c)', open(mutant['patch']).read(), flags=re.M)):
+            _rebuild_kernel(os.path.join(d, cf), mutant['name'], d)
         return d
     path = os.path.join(d, mutant['file'])
     src = open(path).read()
@@ -80,9 +83,15 @@ def make_scratch(mutant):
     src = src.replace(mutant['old'], mutant['new'], mutant.get('count', 1))
     open(path, 'w').write(src)
     if path.endswith('.c'):
-        # kernel mutant: rebuild the extension from the mutated generated C (Cython itself is not available)
+        _rebuild_kernel(path, mutant['name'], d)
+    return d
+
+
+def _rebuild_kernel(path, name, d):
+    """kernel mutant: rebuild the extension from the mutated generated C (Cython itself is not available)."""
+    mutant = {'name': name}
+    if True:
         import glob
-        import sysconfig
         base = os.path.basename(path)[:-2]
         so = glob.glob(os.path.join(os.path.dirname(path), base + '.*.so'))
         inc = subprocess.run(['/venv/bin/python', '-c', 'import sysconfig, numpy; print(sysconfig.get_paths()["include"]); print(numpy.get_include())'],
@@ -162,6 +171,8 @@ def main(argv):
             bad += 1
             print('      ', r.get('detail') or r.get('tail'))
     print(f'{len(results) - bad}/{len(results)} mutants caught')
+    if os.environ.get('SELFTEST_JSON'):
+        json.dump(results, open(os.environ['SELFTEST_JSON'], 'w'), indent=1)
     return 1 if bad else 0
 
 
